@@ -319,10 +319,15 @@ func (hfh *HttpForwarderHandlerV2) Run(ctx context.Context) {
 	var wg wait.Group
 	hfh.sendNop(ctx)
 	wg.Start(func() {
+		// merges counts the merge goroutines that have not handed all their maps to a post goroutine yet: a goroutine
+		// gives its merge token back before it takes request tokens, so the tokens alone do not tell when it is done
+		var merges sync.WaitGroup
 		for metricMaps := range hfh.consolidatedMetrics {
 			hfh.acquireMergingSem()
 			metricMaps := metricMaps
+			merges.Add(1)
 			go func() {
+				defer merges.Done()
 				mergedMetricMap := gostatsd.MergeMaps(metricMaps)
 				mms := mergedMetricMap.SplitByTags(hfh.dynHeaderNames)
 				hfh.releaseMergingSem()
@@ -342,6 +347,7 @@ func (hfh *HttpForwarderHandlerV2) Run(ctx context.Context) {
 				}
 			}()
 		}
+		merges.Wait() // otherwise the last flush can be left waiting for a request token for ever, unposted
 		for i := 0; i < cap(hfh.metricsSem); i++ {
 			hfh.acquireSem()
 		}
